@@ -7,6 +7,7 @@ from ..effects import Effects
 from ..kinds import Kinds, DICT, MAYBE
 from ..taint import Interp, Policy, Val, Fresh, IMMUTABLE
 from ..selftest.runner import M, TW, V
+from . import common as K
 
 PROPERTY = "C08"
 EXPLANATION = (
@@ -440,6 +441,8 @@ def descent_names(fn, root):
 
 def is_self_attr_index(fn, node, attr, index):
     """node is `self.<attr>[index]` or `<local>[index]` where the local is defined only by `<local> = self.<attr>`."""
+    # explaining variables (`path = self._subcontext; parents, last = path[:-1], path[-1]`) are read through
+    node = K.expand(node, K.func_aliases(fn))
     if not (isinstance(node, ast.Subscript) and A.int_const(node.slice) == index):
         return False
     base = node.value
